@@ -175,7 +175,11 @@ int main(int argc, char **argv) {
       for (;;) sleep(1000);
     }
     case 'p': { volatile unsigned long x = 0; for (;;) x++; }
-    case 'a': { for (;;) { char *m = malloc(1 << 22); if (!m) abort(); memset(m, 1, 1 << 22); } }
+    case 'a': { /* allocate "without bound": 600 MB is three times any --memout the checks use; a run that
+                   gets that far was not limited at all and then answers normally */
+      for (int q = 0; q < 150; q++) { char *m = malloc(1 << 22); if (!m) abort(); memset(m, 1, 1 << 22); }
+      break;
+    }
     case 'v': raise(SIGSEGV); break;
     case 'k': raise(SIGKILL); break;
     default: break;
